@@ -107,7 +107,7 @@ mut('p1-mustconvert-wraps', ['C01','C17'], ['P1'], [('values/convert.go',
 	if err != nil {
 		panic(fmt.Errorf("convert: %w", err))
 	}''')])
-mut('e4-text-ignores-error', ['C20','C01'], ['E4'], [('render/render.go',
+mut('e4-text-ignores-error', ['C20'], ['E4'], [('render/render.go',
  '''	_, err := io.WriteString(w, n.Source)
 	return wrapRenderError(err, n)''',
  '''	_, _ = io.WriteString(w, n.Source)
